@@ -418,6 +418,19 @@ class World:
         return o
 
 
+class _ModProxy:
+    """a beyond sub-module seen from shadow code: functions resolve to their shadow versions (or stubs), the rest to the real module"""
+
+    def __init__(self, world, real):
+        self._w, self._real = world, real
+
+    def __getattr__(self, name):
+        v = getattr(self._real, name)
+        if isinstance(v, types.FunctionType) and v.__module__ == self._real.__name__:
+            return self._w.module(self._real.__name__).get(name)
+        return v
+
+
 class ShadowModule:
     def __init__(self, world, modname):
         self.world, self.modname = world, modname
@@ -469,6 +482,10 @@ class ShadowModule:
                     self.ns[k] = w.module(v.__module__).get(v.__name__)
                 except sym.EngineLimit:
                     pass
+        # sub-modules of beyond referenced as modules (e.g. `from . import iau1980`): attribute access gives the shadow functions
+        for k, v in list(self.ns.items()):
+            if isinstance(v, types.ModuleType) and getattr(v, "__name__", "").startswith("beyond.") and v.__name__ != self.modname:
+                self.ns[k] = _ModProxy(w, v)
         for k, v in w.names.get(self.modname, {}).items():
             self.ns[k] = v
 
